@@ -84,6 +84,146 @@ namespace c02
         static int id(const Tracked &x) { return x.id(); }
     };
 
+    // ------------------------------------------------------------ element whose constructors throw on schedule
+    // The harness arms (kind, countdown) right before ONE call into the container: the countdown-th
+    // construction of that kind (value/default, copy, move) throws InjectedFault before anything is
+    // constructed or the source is touched. Destructors and assignments never throw.
+    struct InjectedFault
+    {
+    };
+    struct Throwing : Tracked
+    {
+        enum
+        {
+            NONE,
+            VALUE,
+            COPY,
+            MOVE
+        };
+        static inline int armed = NONE, countdown = 0;
+        static void arm(int kind, int n)
+        {
+            armed = kind;
+            countdown = n;
+        }
+        static void disarm() { armed = NONE; }
+        static int tick(int kind)
+        {
+            if (kind == armed && countdown > 0 && --countdown == 0)
+            {
+                armed = NONE;
+                throw InjectedFault();
+            }
+            return 0;
+        }
+        Throwing() : Tracked(tick(VALUE)) {}
+        Throwing(int id) : Tracked(tick(VALUE) + id) {}
+        Throwing(const Throwing &o) : Tracked((tick(COPY), static_cast<const Tracked &>(o))) {}
+        Throwing(Throwing &&o) : Tracked((tick(MOVE), static_cast<Tracked &&>(o))) {} // deliberately not noexcept
+        Throwing &operator=(const Throwing &) = default;
+        Throwing &operator=(Throwing &&) = default;
+    };
+    template <> struct El<Throwing>
+    {
+        static constexpr const char *name = "Throwing";
+        static constexpr bool tracked = true;
+        static constexpr int default_id = 0;
+        static Throwing make(int id) { return Throwing(id); }
+        static int arg(int id) { return id; }
+        static int id(const Throwing &x) { return x.id(); }
+    };
+
+    // ------------------------------------------------------------ harness-owned iterators
+    // InIt: a genuine single-pass input iterator. All copies share one source; advancing any copy
+    // consumes the source, and using a copy that was left behind (or reading at the end) is reported.
+    // FwdIt: a multi-pass forward iterator over the same array.
+#ifdef C02_PORTABLE
+    using input_tag = igris::input_iterator_tag;
+    using forward_tag = igris::forward_iterator_tag;
+#else
+    using input_tag = std::input_iterator_tag;
+    using forward_tag = std::forward_iterator_tag;
+#endif
+    inline std::string &iter_ctx()
+    {
+        static std::string c;
+        return c;
+    }
+    template <class T> struct InSrc
+    {
+        const T *data;
+        size_t n, pos = 0;
+        unsigned long gen = 0;
+    };
+    template <class T> struct InIt
+    {
+        using iterator_category = input_tag;
+        using value_type = T;
+        using difference_type = ptrdiff_t;
+        using pointer = const T *;
+        using reference = const T &;
+        InSrc<T> *s = nullptr;
+        unsigned long gen = 0;
+        bool at_end() const { return !s || s->pos >= s->n; }
+        void usable(const char *what) const
+        {
+            if (s && gen != s->gen)
+                vf::fail(("input-range:" + iter_ctx() + ":stale-copy-used").c_str(),
+                         "%s of an input-iterator copy after another copy had advanced the shared source (source at %zu of %zu): the range was traversed twice", what,
+                         s->pos, s->n);
+            if (at_end())
+                vf::fail(("input-range:" + iter_ctx() + ":used-at-end").c_str(), "%s of an input iterator that is at the end of its range", what);
+        }
+        const T &operator*() const
+        {
+            usable("dereference");
+            return s->data[s->pos];
+        }
+        InIt &operator++()
+        {
+            usable("increment");
+            s->pos++;
+            gen = ++s->gen;
+            return *this;
+        }
+        struct Proxy
+        {
+            T v;
+            const T &operator*() const { return v; }
+        };
+        Proxy operator++(int)
+        {
+            Proxy p{**this};
+            ++*this;
+            return p;
+        }
+        friend bool operator==(const InIt &a, const InIt &b) { return a.at_end() == b.at_end(); } // only "== end" is meaningful
+        friend bool operator!=(const InIt &a, const InIt &b) { return !(a == b); }
+    };
+    template <class T> struct FwdIt
+    {
+        using iterator_category = forward_tag;
+        using value_type = T;
+        using difference_type = ptrdiff_t;
+        using pointer = const T *;
+        using reference = const T &;
+        const T *p = nullptr;
+        const T &operator*() const { return *p; }
+        FwdIt &operator++()
+        {
+            ++p;
+            return *this;
+        }
+        FwdIt operator++(int)
+        {
+            FwdIt r = *this;
+            ++p;
+            return r;
+        }
+        friend bool operator==(const FwdIt &a, const FwdIt &b) { return a.p == b.p; }
+        friend bool operator!=(const FwdIt &a, const FwdIt &b) { return a.p != b.p; }
+    };
+
     // ------------------------------------------------------------ operations
     enum Kind
     {
@@ -225,6 +365,8 @@ namespace c02
                 out.push_back({CTOR_RANGE, k, 0}); // std::list iterators
             out.push_back({CTOR_RANGE, k, 1});     // T* pair
             out.push_back({CTOR_RANGE, k, 2});     // const T* pair
+            out.push_back({CTOR_RANGE, k, 3});     // harness single-pass input iterator
+            out.push_back({CTOR_RANGE, k, 4});     // harness forward iterator
         }
         for (int k = 0; k <= 3; k++)
             out.push_back({CTOR_N, k, 0});
@@ -345,17 +487,97 @@ namespace c02
                 t.push_back(x);
             }
         }
-        template <size_t... I> static V *new_il(const std::vector<int> &ids, bool rv, std::index_sequence<I...>)
+        // returns nullptr when an injected fault made the constructor throw
+        template <size_t... I> V *new_il(const std::vector<int> &ids, bool rv, std::index_sequence<I...>)
         {
+            V *w = nullptr;
             if constexpr (has_il<V, T>)
             {
-                if (rv)
-                    return new V(std::initializer_list<T>{E::make(ids[I])...});
                 std::initializer_list<T> il = {E::make(ids[I])...};
-                return new V(il);
+                guarded([&] { w = rv ? new V(std::move(il)) : new V(il); });
             }
             else
-                return new V;
+                w = new V;
+            return w;
+        }
+
+        // ---- fault injection (T = Throwing only): armed around exactly one call into the container
+        static constexpr bool throwing = std::is_same_v<T, Throwing>;
+        int fault_kind = 0, fault_countdown = 0; // set by the workload before apply(); consumed by it
+        int fired_kind = 0;
+        bool fault_fired = false;
+        template <class F> bool guarded(F &&f)
+        {
+            if constexpr (throwing)
+            {
+                int k = fault_kind, c = fault_countdown;
+                fault_kind = 0;
+                if (!k)
+                {
+                    f();
+                    return false;
+                }
+                Throwing::arm(k, c);
+                try
+                {
+                    f();
+                }
+                catch (const InjectedFault &)
+                {
+                    Throwing::disarm();
+                    fault_fired = true;
+                    fired_kind = k;
+                    if (vf::verbose())
+                        printf("    -> injected fault: construction #%d of kind %d threw\n", c, k);
+                    trace += k == Throwing::VALUE ? "!value-ctor-threw" : k == Throwing::COPY ? "!copy-ctor-threw" : "!move-ctor-threw";
+                    return true;
+                }
+                Throwing::disarm();
+                return false;
+            }
+            else
+            {
+                f();
+                return false;
+            }
+        }
+        // after a throwing operation that may leave a changed (but valid) vector: every exposed element is a
+        // live object, capacity >= size, the number of live objects equals what the containers report
+        void exposed_live(V &x)
+        {
+            Tracked::check();
+            if (x.capacity() < x.size())
+                bad("seq", "capacity-after-throw", "capacity()=%zu < size()=%zu", x.capacity(), x.size());
+            for (size_t i = 0; i < x.size(); i++)
+                (void)E::id(x[i]); // a slot that holds no object is reported by the registry
+            Tracked::check();
+        }
+        void live_after_throw(size_t live)
+        {
+            if constexpr (E::tracked)
+                if (Tracked::live_count() != live)
+                    bad("lifetime", "live-count-after-throw",
+                        "%zu Tracked objects are alive after an element constructor threw, the containers report exactly %zu elements", Tracked::live_count(), live);
+            VF_OK("after a throwing element constructor: exposed elements are live objects, live == size()");
+        }
+        void resync()
+        {
+            m.clear();
+            for (size_t i = 0; i < v->size(); i++)
+                m.push_back(E::id((*v)[i]));
+        }
+        // a single-element append (at the end) has no effect when a copy/value constructor throws (like std::vector);
+        // a throwing MOVE during the reallocation, and every other operation, only keeps the vector valid
+        void after_throw(bool append)
+        {
+            if (append && fired_kind != Throwing::MOVE)
+            {
+                VF_OK("append whose element constructor threw left the sequence unchanged");
+                return; // verify() below compares with the unchanged model
+            }
+            exposed_live(*v);
+            live_after_throw(v->size());
+            resync();
         }
 
         void apply(const Op &o)
@@ -365,6 +587,8 @@ namespace c02
             char tag[160];
             snprintf(tag, sizeof tag, "%s:%s", flav().c_str(), op);
             vf::cls(tag);
+            iter_ctx() = tag;
+            fault_fired = false;
             {
                 char b[96];
                 snprintf(b, sizeof b, "%s%s(%d,%d)[n=%zu,cap=%zu]", trace.empty() ? "" : " ; ", op, o.a, o.b, m.size(), v->capacity());
@@ -379,54 +603,75 @@ namespace c02
             case PUSH_FRESH:
             {
                 int id = fresh();
+                bool thrown;
                 {
                     T x = E::make(id);
-                    v->push_back(x);
+                    thrown = guarded([&] { v->push_back(x); });
                 }
-                m.push_back(id);
+                if (thrown)
+                    after_throw(true);
+                else
+                    m.push_back(id);
                 break;
             }
             case PUSH_ALIAS:
             {
                 int id = m[o.a];
-                v->push_back((*v)[o.a]);
-                m.push_back(id);
+                if (guarded([&] { v->push_back((*v)[o.a]); }))
+                    after_throw(true);
+                else
+                    m.push_back(id);
                 break;
             }
             case EMPLACE_BACK_FRESH:
             {
                 int id = fresh();
-                v->emplace_back(E::arg(id));
-                m.push_back(id);
+                if (guarded([&] { v->emplace_back(E::arg(id)); }))
+                    after_throw(true);
+                else
+                    m.push_back(id);
                 break;
             }
             case EMPLACE_BACK_ALIAS:
             {
                 int id = m[o.a];
-                v->emplace_back((*v)[o.a]);
-                m.push_back(id);
+                if (guarded([&] { v->emplace_back((*v)[o.a]); }))
+                    after_throw(true);
+                else
+                    m.push_back(id);
                 break;
             }
             case INSERT_FRESH:
             case INSERT_INTPOS:
             {
                 int id = fresh();
+                bool thrown, at_end = (size_t)o.a == m.size();
                 {
                     T x = E::make(id);
-                    auto it = o.kind == INSERT_FRESH ? v->insert((cit)(v->begin() + o.a), x) : v->insert((int)o.a, x);
-                    if (it != v->begin() + o.a)
-                        bad("seq", "returned-iterator", "insert at %d returned begin()+%td", o.a, it - v->begin());
+                    thrown = guarded([&] {
+                        auto it = o.kind == INSERT_FRESH ? v->insert((cit)(v->begin() + o.a), x) : v->insert((int)o.a, x);
+                        if (it != v->begin() + o.a)
+                            bad("seq", "returned-iterator", "insert at %d returned begin()+%td", o.a, it - v->begin());
+                    });
                 }
-                m.insert(m.begin() + o.a, id);
+                if (thrown)
+                    after_throw(at_end);
+                else
+                    m.insert(m.begin() + o.a, id);
                 break;
             }
             case INSERT_ALIAS:
             {
                 int id = m[o.b];
-                auto it = v->insert((cit)(v->begin() + o.a), (*v)[o.b]);
-                if (it != v->begin() + o.a)
-                    bad("seq", "returned-iterator", "insert at %d returned begin()+%td", o.a, it - v->begin());
-                m.insert(m.begin() + o.a, id);
+                bool at_end = (size_t)o.a == m.size();
+                if (guarded([&] {
+                        auto it = v->insert((cit)(v->begin() + o.a), (*v)[o.b]);
+                        if (it != v->begin() + o.a)
+                            bad("seq", "returned-iterator", "insert at %d returned begin()+%td", o.a, it - v->begin());
+                    }))
+                    after_throw(at_end);
+                else
+                    m.insert(m.begin() + o.a, id);
                 break;
             }
             case INSERT_RANGE:
@@ -434,33 +679,53 @@ namespace c02
                 std::vector<int> ids = fresh_ids(o.b);
                 {
                     std::vector<T> src = mk(ids); // foreign range, as std::vector::insert requires
-                    const T *f = src.data();
-                    auto it = v->insert(v->begin() + o.a, f, f + ids.size());
-                    if (it != v->begin() + o.a)
-                        bad("seq", "returned-iterator", "insert at %d returned begin()+%td", o.a, it - v->begin());
+                    const T *f = src.data();       // (the member takes const T* only: pointers are the forced category)
+                    bool thrown = guarded([&] {
+                        auto it = v->insert(v->begin() + o.a, f, f + ids.size());
+                        if (it != v->begin() + o.a)
+                            bad("seq", "returned-iterator", "insert at %d returned begin()+%td", o.a, it - v->begin());
+                    });
                     for (size_t i = 0; i < ids.size(); i++)
                         if (E::id(src[i]) != ids[i])
                             bad("seq", "source-modified", "source element %zu became %d", i, E::id(src[i]));
+                    if (thrown)
+                    {
+                        exposed_live(*v);
+                        live_after_throw(v->size() + ids.size());
+                    }
                 }
-                m.insert(m.begin() + o.a, ids.begin(), ids.end());
+                if (fault_fired)
+                    resync();
+                else
+                    m.insert(m.begin() + o.a, ids.begin(), ids.end());
                 break;
             }
             case EMPLACE_FRESH:
             {
                 int id = fresh();
-                auto it = v->emplace((cit)(v->begin() + o.a), E::arg(id));
-                if (it != v->begin() + o.a)
-                    bad("seq", "returned-iterator", "emplace at %d returned begin()+%td", o.a, it - v->begin());
-                m.insert(m.begin() + o.a, id);
+                bool at_end = (size_t)o.a == m.size();
+                if (guarded([&] {
+                        auto it = v->emplace((cit)(v->begin() + o.a), E::arg(id));
+                        if (it != v->begin() + o.a)
+                            bad("seq", "returned-iterator", "emplace at %d returned begin()+%td", o.a, it - v->begin());
+                    }))
+                    after_throw(at_end);
+                else
+                    m.insert(m.begin() + o.a, id);
                 break;
             }
             case EMPLACE_ALIAS:
             {
                 int id = m[o.b];
-                auto it = v->emplace((cit)(v->begin() + o.a), (*v)[o.b]);
-                if (it != v->begin() + o.a)
-                    bad("seq", "returned-iterator", "emplace at %d returned begin()+%td", o.a, it - v->begin());
-                m.insert(m.begin() + o.a, id);
+                bool at_end = (size_t)o.a == m.size();
+                if (guarded([&] {
+                        auto it = v->emplace((cit)(v->begin() + o.a), (*v)[o.b]);
+                        if (it != v->begin() + o.a)
+                            bad("seq", "returned-iterator", "emplace at %d returned begin()+%td", o.a, it - v->begin());
+                    }))
+                    after_throw(at_end);
+                else
+                    m.insert(m.begin() + o.a, id);
                 break;
             }
             case ERASE_RANGE:
@@ -479,11 +744,17 @@ namespace c02
                 m.pop_back();
                 break;
             case RESIZE:
-                v->resize((size_t)o.a);
-                m.resize((size_t)o.a, E::default_id);
+                if (guarded([&] { v->resize((size_t)o.a); }))
+                    after_throw(false);
+                else
+                    m.resize((size_t)o.a, E::default_id);
                 break;
             case RESERVE:
-                v->reserve((size_t)o.a);
+                if (guarded([&] { v->reserve((size_t)o.a); }))
+                {
+                    after_throw(false);
+                    break;
+                }
                 if (v->capacity() < (size_t)o.a)
                     bad("seq", "capacity", "capacity()=%zu after reserve(%d)", v->capacity(), o.a);
                 break;
@@ -493,7 +764,9 @@ namespace c02
                 break;
             case COPY_CTOR:
             {
-                V *w = new V(*(const V *)v);
+                V *w = nullptr;
+                if (guarded([&] { w = new V(*(const V *)v); }))
+                    break; // the copy never came to life: the source is untouched and nothing of it stays alive (verified below)
                 verify(*w, m, 2 * m.size());
                 verify(*v, m, 2 * m.size());
                 if (o.a)
@@ -518,11 +791,22 @@ namespace c02
                 {
                     V t;
                     fill(t, ids);
-                    *v = (const V &)t;
-                    verify(*v, ids, 2 * ids.size());
-                    verify(t, ids, 2 * ids.size());
+                    if (guarded([&] { *v = (const V &)t; }))
+                    {
+                        exposed_live(*v);
+                        live_after_throw(v->size() + ids.size());
+                        verify(t, ids, v->size() + ids.size()); // the source of a copy is untouched
+                    }
+                    else
+                    {
+                        verify(*v, ids, 2 * ids.size());
+                        verify(t, ids, 2 * ids.size());
+                    }
                 }
-                m = ids;
+                if (fault_fired)
+                    resync();
+                else
+                    m = ids;
                 break;
             }
             case COPY_ASSIGN_TO:
@@ -530,7 +814,13 @@ namespace c02
                 std::vector<int> ids = fresh_ids(o.a);
                 V t;
                 fill(t, ids);
-                t = (const V &)*v;
+                if (guarded([&] { t = (const V &)*v; }))
+                {
+                    exposed_live(t);
+                    live_after_throw(t.size() + m.size());
+                    verify(*v, m, t.size() + m.size());
+                    break;
+                }
                 verify(t, m, 2 * m.size());
                 verify(*v, m, 2 * m.size());
                 break;
@@ -658,6 +948,8 @@ namespace c02
                     w = new_il(ids, o.b, std::make_index_sequence<4>());
                     break;
                 }
+                if (!w)
+                    break; // an element constructor threw: the old vector stays, nothing of the failed one may be alive
                 delete v;
                 v = w;
                 m = ids;
@@ -667,31 +959,44 @@ namespace c02
             {
                 std::vector<int> ids = fresh_ids(o.a);
                 V *w = nullptr;
+                bool thrown = false;
                 {
+                    std::vector<T> src = mk(ids);
+                    T *f = src.data();
+                    const T *cf = f;
                     if (o.b == 0)
                     {
                         if constexpr (Fam::std_iters)
                         {
-                            std::vector<T> tmp = mk(ids);
-                            std::list<T> src(tmp.begin(), tmp.end());
-                            w = new V(src.begin(), src.end());
+                            std::list<T> lst(src.begin(), src.end());
+                            thrown = guarded([&] { w = new V(lst.begin(), lst.end()); });
                         }
+                        else
+                            w = new V;
+                    }
+                    else if (o.b == 1)
+                        thrown = guarded([&] { w = new V(f, f + ids.size()); });
+                    else if (o.b == 2)
+                        thrown = guarded([&] { w = new V(cf, cf + ids.size()); });
+                    else if (o.b == 3)
+                    {
+                        // single-pass input range: the source may be traversed once only
+                        InSrc<T> in{cf, ids.size()};
+                        InIt<T> first{&in, 0}, last{};
+                        thrown = guarded([&] { w = new V(first, last); });
+                        VF_OK("range constructor driven by a single-pass input iterator");
                     }
                     else
                     {
-                        std::vector<T> src = mk(ids);
-                        T *f = src.data();
-                        if (o.b == 1)
-                            w = new V(f, f + ids.size());
-                        else
-                            w = new V((const T *)f, (const T *)f + ids.size());
-                        for (size_t i = 0; i < ids.size(); i++)
-                            if (E::id(src[i]) != ids[i])
-                                bad("seq", "source-modified", "source element %zu became %d", i, E::id(src[i]));
+                        FwdIt<T> first{cf}, last{cf + ids.size()};
+                        thrown = guarded([&] { w = new V(first, last); });
                     }
+                    for (size_t i = 0; i < ids.size(); i++)
+                        if (E::id(src[i]) != ids[i])
+                            bad("seq", "source-modified", "source element %zu became %d", i, E::id(src[i]));
                 }
-                if (!w)
-                    w = new V;
+                if (thrown)
+                    break; // the old vector stays; nothing of the failed one may be alive (verified below)
                 delete v;
                 v = w;
                 m = ids;
@@ -699,13 +1004,17 @@ namespace c02
             }
             case CTOR_N:
             {
-                V *w = new V((size_t)o.a);
+                V *w = nullptr;
+                if (guarded([&] { w = new V((size_t)o.a); }))
+                    break;
                 delete v;
                 v = w;
                 m.assign((size_t)o.a, E::default_id);
                 break;
             }
             }
+            if (fault_fired)
+                VF_OK("an element constructor threw inside the operation");
             verify();
         }
         // history ended normally: the vector goes away and nothing may stay alive
@@ -750,7 +1059,7 @@ namespace c02
     // ------------------------------------------------------------ suites
     // (a) enumeration: start state (size 0..4) x (capacity state) x op1 x op2, every position of every op
     static const int SPARE[4] = {0, 1, 3, -1}; // -1: grown by push_back alone (whatever capacity that gives)
-    static const int ENUM_SLOTS = 192;        // >= number of op instances for size 4
+    static const int ENUM_SLOTS = 208;        // >= number of op instances for size 4
     static uint64_t enum_count() { return 5ull * 4 * ENUM_SLOTS; }
     template <class T> static void enum_run_t(int n, int spare, int slot)
     {
@@ -805,6 +1114,58 @@ namespace c02
         enum_run_t<T>((int)(idx % 5), spare, slot);
     }
 
+    // (a') T = Throwing: start state x every fault-relevant operation instance x {value, copy, move} constructor
+    //      throwing at its 1st..(n+3)-th call, followed by further operations and the destructor
+    static inline bool fault_relevant(int k)
+    {
+        return k <= EMPLACE_ALIAS || k == RESIZE || k == RESERVE || k == COPY_CTOR || k == COPY_ASSIGN_FROM || k == COPY_ASSIGN_TO || k == CTOR_IL ||
+               k == CTOR_RANGE || k == CTOR_N;
+    }
+    static uint64_t fault_count() { return 5ull * 4 * ENUM_SLOTS; }
+    static void fault_run(uint64_t idx)
+    {
+        using T = Throwing;
+        int slot = idx % ENUM_SLOTS;
+        idx /= ENUM_SLOTS;
+        int spare = SPARE[idx % 4];
+        idx /= 4;
+        int n = (int)(idx % 5);
+        std::vector<Op> ops;
+        {
+            Hist<T> h;
+            h.start();
+            h.build(n, spare);
+            gen_ops<T>(h.m.size(), h.v->capacity(), ops);
+            h.finish();
+        }
+        if ((size_t)slot >= ops.size() || !fault_relevant(ops[slot].kind))
+            return;
+        uint64_t seqs = 0, fired = 0;
+        for (int kind = 1; kind <= 3; kind++)
+            for (int c = 1; c <= n + 3; c++)
+            {
+                Hist<T> h;
+                h.start();
+                h.build(n, spare);
+                h.fault_kind = kind;
+                h.fault_countdown = c;
+                h.apply(ops[slot]);
+                bool f = h.fault_fired;
+                // the vector must remain fully usable
+                h.apply({PUSH_FRESH, 0, 0});
+                if (!h.m.empty())
+                    h.apply({ERASE_POS, 0, 0});
+                h.apply({INSERT_FRESH, 0, 0});
+                h.finish();
+                seqs++;
+                fired += f;
+            }
+        vf::count_bulk(seqs, fired);
+        if (vf::want_sample() && n == 3 && slot % 29 == 4)
+            vf::sample("faults: %s start size=%d spare=%d op=%s(%d,%d) x {value,copy,move} ctor throwing at call 1..%d: %llu with a throw", Hist<T>::flav().c_str(),
+                       n, spare, KNAME[ops[slot].kind], ops[slot].a, ops[slot].b, n + 3, (unsigned long long)fired);
+    }
+
     // (b) seeded random histories of 60 operations
     static uint64_t rand_count() { return vf::thorough() ? 100000 : 1000; } // per element type
     template <class T> static void rand_run_t(uint64_t idx)
@@ -838,8 +1199,15 @@ namespace c02
             Op o = pick[r.below(pick.size())];
             if (k == RESIZE && r.chance(1, 4))
                 o.a = r.range(0, 14);
+            int fk = 0, fc = 0;
+            if constexpr (Hist<T>::throwing)
+                if (r.chance(1, 2))
+                {
+                    h.fault_kind = fk = 1 + (int)r.below(3);
+                    h.fault_countdown = fc = 1 + (int)r.below(6);
+                }
             h.apply(o);
-            hh = vf::mix(hh, vf::mix(o.kind, vf::mix(o.a, o.b)));
+            hh = vf::mix(hh, vf::mix(o.kind * 64 + fk * 8 + fc, vf::mix(o.a, o.b)));
             nontrivial |= mutates(o.kind) && !h.m.empty();
         }
         h.finish();
@@ -855,6 +1223,10 @@ namespace c02
                               "source of move construction is empty", "operator== and != agree with std::vector",
                               "every element constructed was destroyed exactly once at the end of the history"})
             vf::require(c);
+        for (const char *c : {"an element constructor threw inside the operation", "append whose element constructor threw left the sequence unchanged",
+                              "after a throwing element constructor: exposed elements are live objects, live == size()",
+                              "range constructor driven by a single-pass input iterator"})
+            vf::require(c);
         if (has_less<V>)
             vf::require("operator< agrees with std::vector");
         if (has_at<V>)
@@ -865,3 +1237,6 @@ namespace c02
 #define C02_VEC_SUITES(T, tag)                                                   \
     VF_SUITE(enumerate_##tag, c02::enum_count, c02::enum_run<T>)                 \
     VF_SUITE(random_##tag, c02::rand_count, c02::rand_run_t<T>)
+#define C02_VEC_FAULT_SUITES(tag)                                                \
+    VF_SUITE(faults_enumerate_##tag, c02::fault_count, c02::fault_run)           \
+    VF_SUITE(faults_random_##tag, c02::rand_count, c02::rand_run_t<c02::Throwing>)
